@@ -139,12 +139,27 @@ def paths_job(job):
     def pj(f, x):
         log.append({"mode": "fwd", "name": [p for p in get_name(f).split("_")[:-1]]})
         return oj(f, x)
+    if job.get("pre"):
+        # history: an earlier check_grads call with DEFAULT arguments on a primitive that has no forward-mode rule (it raises
+        # NotImplementedError, which the caller handles) must not change what later default-argument calls check
+        @primitive
+        def nojvp(x):
+            return x * x
+        defvjp(nojvp, lambda ans, x: lambda g: 2 * x * g)
+        for _ in range(2):
+            try:
+                tu.check_grads(nojvp)(onp.array([0.4, 1.3]))
+            except Exception:     # noqa
+                pass
     tu.check_vjp, tu.check_jvp = pv, pj
     try:
         def f(x):
             return np.sin(x) * x
         onp.random.seed(job["id"])
-        tu.check_grads(f, modes=job["modes"], order=job["order"])(onp.array([0.7, 1.1]))
+        if job.get("default"):
+            tu.check_grads(f, order=job["order"])(onp.array([0.7, 1.1]))          # modes left to the default
+        else:
+            tu.check_grads(f, modes=job["modes"], order=job["order"])(onp.array([0.7, 1.1]))
         err = ""
     except Exception as ex:     # noqa
         err = type(ex).__name__ + ": " + str(ex)[:100]
